@@ -348,6 +348,9 @@ def run_actions(actions, phase, ctx):
                  if ORIG_STDOUT is not None else None,
                  err_is_orig=(sys.stderr is ORIG_STDERR)
                  if ORIG_STDERR is not None else None)
+        elif do == 'write_file':
+            with open(a['path'], 'w') as f:
+                f.write(a.get('text', ''))
         elif do == 'mutate_argv':
             # a test that drives a main() through sys.argv and changes the
             # list in place without putting it back
@@ -846,6 +849,12 @@ def build_class(world, modname, cs):
     return cls
 
 
+def _param_str(self):
+    s = unittest.TestCase.__str__(self)
+    p = self.__dict__.get('_v_param')
+    return s if p is None else '%s [%s]' % (s, p)
+
+
 def build_node(world, modname, node, ns):
     if node['t'] == 'class':
         cls = ns.get(node['name'])
@@ -853,6 +862,19 @@ def build_node(world, modname, node, ns):
             cls = build_class(world, modname, node)
             ns[node['name']] = cls
         loader = unittest.TestLoader()
+        if node.get('params'):
+            # the classic parametrised test case: one instance per
+            # parameter for every method; the instances of one method
+            # compare equal and share their id(), only str() tells them
+            # apart
+            cls.__str__ = _param_str
+            suite = unittest.TestSuite()
+            for name in loader.getTestCaseNames(cls):
+                for p in node['params']:
+                    t = cls(name)
+                    t._v_param = p
+                    suite.addTest(t)
+            return suite
         suite = loader.loadTestsFromTestCase(cls)
         return suite
     if node['t'] == 'doctest':
